@@ -388,7 +388,9 @@ def run_call_cases(ctx, cases, root, doc, procs=None):
         prepare_call_case(c, root)
 
     def work(i):
-        return vlib.probe([call_op(c) for c in batches[i]], extra_env=procs[i % len(procs)])
+        # (per-case time-out: a call that never returns is reported on its case, see py/ext/probewatch.py)
+        from ext import probewatch
+        return probewatch.probe([call_op(c) for c in batches[i]], extra_env=procs[i % len(procs)])
 
     with concurrent.futures.ThreadPoolExecutor(max_workers=nb) as ex:
         results = list(ex.map(work, range(nb)))
@@ -413,6 +415,11 @@ def judge_call_case(ctx, case, res, proc, doc):
     ctx.count("call:list-length:%d" % len(hooks))
     ctx.count("call:matching:%d" % len(matching))
     ctx.count("call:multi-typed-hooks:%d" % sum(1 for h in hooks if len(h["types"]) > 1))
+    if isinstance(res, dict) and res.get("hung"):
+        ran = [r.get("name") for r in flow.read_log(case["log"])]
+        ctx.violation("hooks_call %s on %d hooks: hook call did not return (no result for %s s; hooks that left a record: %s of %s)" % (
+            ty, len(hooks), res.get("waited_s"), ran, [h["name"] for h in matching]), replay_obj)
+        return
     if not isinstance(res, dict) or "ok" not in res:
         ctx.violation("hooks_call %s on %d hooks: no result (%s)" % (ty, len(hooks), str(res)[:200]), replay_obj)
         return
